@@ -128,7 +128,7 @@ def build(verbose=False):
         ok_oracle = build_oracle(log)
     finally:
         fcntl.flock(lock, fcntl.LOCK_UN)
-    res = dict(make_rc=rc, translators_changed=changed, built=built, oracle=ok_oracle, log=log,
+    res = dict(make_rc=rc, make_out=out[-20000:], translators_changed=changed, built=built, oracle=ok_oracle, log=log,
                wall=time.time() - t0)
     if verbose:
         print('\n'.join(log))
